@@ -11,7 +11,7 @@ IndexOf(sq, x) == CHOOSE i \in 1..Len(sq) : sq[i] = x
 GOf(r) == [Fresh EXCEPT !.elems = [n \in ToSet(r.names) |-> ToSet(r.types[IndexOf(r.names, n)])],
                         !.req = ToSet(r.req)]
 PInit == /\ g = [s \in Slots |-> Empty] /\ q = [s \in Slots |-> Cold] /\ h = 0
-         /\ PrintT(<<"OTHERS", Others>>)
+         /\ PrintT(<<"OTHERS", SchemaOthers>>)
          /\ \A i \in 1..Len(Data) :
               LET G == GOf(Data[i]) IN
                 PrintT(<<"PROBES", Data[i].id, Probes(G), ConversionMustAccept(G), WellFormedG(G)>>)
